@@ -45,6 +45,7 @@ fn main() {
             0
         }
         Some("replay") => check::replay_main(&props, args.get(2).expect("replay file")),
+        Some("show") => check::show_main(&props, args.get(2).expect("property id"), tier_of(args.get(3).map(String::as_str).unwrap_or("quick")), args.get(4).map(String::as_str).unwrap_or("")),
         Some("selftest") => selftest::main(),
         Some("conformance") => conformance::main(),
         Some("c18-compare") => c18cmp::main(args.get(2).map(String::as_str).unwrap_or("quick")),
